@@ -1,0 +1,6 @@
+//! Verification hook for property C14 (read-only): exposes the private base64 reverse table.
+
+/// Copy of the private `BASE64_DECODE` table as the compiler sees it.
+pub fn base64_decode_table() -> Vec<u8> {
+    super::BASE64_DECODE.to_vec()
+}
